@@ -16,6 +16,9 @@ func ToPublicKey(pub []byte) *ecdsa.PublicKey {
 		return nil
 	}
 	x, y := elliptic.Unmarshal(curve(), pub)
+	if x == nil || y == nil {
+		return nil
+	}
 	return &ecdsa.PublicKey{Curve: curve(), X: x, Y: y}
 }
 
